@@ -157,7 +157,7 @@ func (e *Encoder) writeMultiPolygon(mp orb.MultiPolygon, srid int) error {
 	}
 
 	for _, p := range mp {
-		err := e.Encode(p, 0)
+		err := e.encode(p, 0)
 		if err != nil {
 			return err
 		}
